@@ -53,6 +53,8 @@ pub fn deliver(ctx: &mut RunCtx, node: &VerifierNode, msg: &Msg, version: PlonkV
     ctx.st.steps += 1;
     #[cfg(feature = "engine-std")]
     let _ = dusk_plonk::verif::take_challenge_log();
+    #[cfg(feature = "engine-std")]
+    let _ = dusk_plonk::verif::take_pairing_log();
     let real: Result<Decision, String> = guarded(|| {
         let proof = match Proof::from_slice(&msg.proof) {
             Ok(p) => p,
@@ -65,6 +67,8 @@ pub fn deliver(ctx: &mut RunCtx, node: &VerifierNode, msg: &Msg, version: PlonkV
     });
     #[cfg(feature = "engine-std")]
     let real_challenges = dusk_plonk::verif::take_challenge_log();
+    #[cfg(feature = "engine-std")]
+    let real_products = dusk_plonk::verif::take_pairing_log();
     // I-canonical: whatever the proof decoder accepts re-encodes to itself
     if msg.proof.len() >= crate::channel::PROOF_SIZE {
         use dusk_bytes::Serializable;
@@ -128,6 +132,25 @@ pub fn deliver(ctx: &mut RunCtx, node: &VerifierNode, msg: &Msg, version: PlonkV
                     }
                 }
             }
+        }
+    }
+    // the equation itself: the pairing product the real verifier compares with the identity must be
+    // the protocol's, e(left, [x]_2) / e(right, [1]_2), for the same message - on rejected messages
+    // too.  (Verdicts alone only differ on messages built for the purpose; the product differs on
+    // any message that touches a term the verifier leaves out.)  Either orientation is accepted.
+    #[cfg(feature = "engine-std")]
+    if let (Some((lhs, rhs)), Some(prod)) = (rm_verify::take_last_equation(), real_products.last()) {
+        ctx.st.probe("pairing_products_compared");
+        let ident = dusk_bls12_381::Gt::identity();
+        let same = (*prod + rhs == lhs) || (*prod + lhs == rhs) || (*prod == ident && lhs == rhs);
+        if !same {
+            return Err(Violation::new(
+                "I-equation",
+                format!(
+                    "the pairing product the verifier compares with the identity is not the protocol's for this message (version {}): the verifier evaluates another equation than e(W_z + u W_zw, [x]_2) = e(z W_z + u z w W_zw + F - E, [1]_2)",
+                    crate::deploy::version_name(version)
+                ),
+            ));
         }
     }
     ctx.st.probe("verify_decisions_mirrored");
